@@ -69,11 +69,20 @@ def _same(outs: Dict[str, str]) -> str:
 
 
 _stack_cache: Dict[Tuple[int, int, int], Any] = {}
+_shape_cache: Dict[Any, Any] = {}
+
+
+def _cached(key, make):
+    """source shapes of chain / contract / fill are only read by those calls: build each once per process"""
+    if key not in _shape_cache:
+        _shape_cache[key] = make()
+    return _shape_cache[key]
 
 
 # ------------------------------------------------------------------------------------------- implementation
-def impl_call(name: str, r: List[Fr], s: List[str]) -> str:
-    """Runs the real classy_blocks; returns "accepted" or the class name of the exception."""
+def impl_call(name: str, r: List[Fr], s: List[str], light: bool = False) -> str:
+    """Runs the real classy_blocks; returns "accepted" or the class name of the exception.
+    `light`: only the primary entry point of a guard (used for the generated probe table, which must be cheap)."""
     import numpy as np
 
     import classy_blocks as cb
@@ -172,6 +181,8 @@ def impl_call(name: str, r: List[Fr], s: List[str]) -> str:
         return _outcome(lambda: Grading(1.0).add_chop(Chop(count=3, length_ratio=f[0])))
     if name == "annulus":
         c, p, n, rin, nseg = np.array(v3(0)), np.array(v3(3)), np.array(v3(6)), f[9], i[10]
+        if light:
+            return _outcome(lambda: Annulus(c, p, n, rin, nseg))
         return _same(
             {
                 "Annulus": _outcome(lambda: Annulus(c, p, n, rin, nseg)),
@@ -179,6 +190,8 @@ def impl_call(name: str, r: List[Fr], s: List[str]) -> str:
             }
         )
     if name == "cylinder":
+        if light:
+            return _outcome(lambda: cb.Cylinder(v3(0), v3(3), v3(6)))
         return _same(
             {
                 "Cylinder": _outcome(lambda: cb.Cylinder(v3(0), v3(3), v3(6))),
@@ -190,23 +203,23 @@ def impl_call(name: str, r: List[Fr], s: List[str]) -> str:
     if name == "chain":
         kind, length = i[0], f[1]
         outs = {}
-        for start in (False, True):
+        for start in (False,) if light else (False, True):
             if kind == 0:
-                src = cb.Cylinder([0, 0, 0], [0, 0, 1], [1, 0, 0])
+                src = _cached("cyl", lambda: cb.Cylinder([0, 0, 0], [0, 0, 1], [1, 0, 0]))
                 outs[str(start)] = _outcome(lambda: cb.Cylinder.chain(src, length, start))
             elif kind == 1:
-                src = cb.Cylinder([0, 0, 0], [0, 0, 1], [1, 0, 0])
+                src = _cached("cyl", lambda: cb.Cylinder([0, 0, 0], [0, 0, 1], [1, 0, 0]))
                 outs[str(start)] = _outcome(lambda: cb.Frustum.chain(src, length, 0.4, start))
             else:
-                src = cb.ExtrudedRing([0, 0, 0], [0, 0, 1], [1, 0, 0], 0.5)
+                src = _cached("ring", lambda: cb.ExtrudedRing([0, 0, 0], [0, 0, 1], [1, 0, 0], 0.5))
                 outs[str(start)] = _outcome(lambda: cb.ExtrudedRing.chain(src, length, start))
         return _same(outs)
     if name == "ringContract":
         rnew, rsrc = f
-        ring = cb.ExtrudedRing([0, 0, 0], [0, 0, 1], [rsrc + 1.0, 0, 0], rsrc)
+        ring = _cached(("ring", rsrc), lambda: cb.ExtrudedRing([0, 0, 0], [0, 0, 1], [rsrc + 1.0, 0, 0], rsrc))
         return _outcome(lambda: cb.ExtrudedRing.contract(ring, rnew))
     if name == "cylinderFill":
-        ring = cb.ExtrudedRing([0, 0, 0], [0, 0, 1], [1, 0, 0], 0.5, i[0])
+        ring = _cached(("ringn", i[0]), lambda: cb.ExtrudedRing([0, 0, 0], [0, 0, 1], [1, 0, 0], 0.5, i[0]))
         return _outcome(lambda: cb.Cylinder.fill(ring))
     if name == "loftedShape":
         grid = lambda n, z: cb.Grid([0, 0, 0], [float(n), 1, 0], n, 1).translate([0, 0, z])
@@ -835,12 +848,12 @@ class C20(core.Check):
         out: List[dict] = []
         if case["kind"] == "call":
             got = impl["out"]
-            if "=" in got:
-                return [{"site": f"{case['name']}:entry-points-disagree", "what": f"{case['r']}{case['s']}: {got}", "observed": got}]
+            # several entry points share the guard ("a=accepted|b=SomeError"): every one of them is judged
+            outs = [kv.split("=", 1)[1] for kv in got.split("|")] if "=" in got else [got]
             ok, site = py_pre(case["name"], [Fr(x) for x in case["r"]], case["s"])
             if ok is None:
                 return out
-            if not ok and got == "accepted":
+            if not ok and "accepted" in outs:
                 out.append(
                     {
                         "site": site + ":accepted",
@@ -850,7 +863,7 @@ class C20(core.Check):
                         "expected": "an exception",
                     }
                 )
-            if ok and got != "accepted":
+            if ok and any(o != "accepted" for o in outs):
                 out.append(
                     {
                         "site": site.split(":")[0] + ":valid-call-rejected",
